@@ -364,6 +364,10 @@ class Daemon:
                     "long": "%d Z %s" % (i + 1000, "y" * 5000)}[f]
         if k == "QC":
             return "-1 ? config"
+        if k == "B":
+            # e.n short-lived other clients, in one write: announce + withdraw, ids from e.id0 upwards
+            return "\n".join("%d C 10.250.%d.%d 4000 10.9.8.7 6667\n%d D" % (e["id0"] + (j % 1000), (j >> 8) & 255, j & 255,
+                                                                          e["id0"] + (j % 1000)) for j in range(e["n"]))
         raise ValueError("cannot render event %r" % (e,))
 
     # ---- parsing output -----------------------------------------------------------------------------
@@ -519,6 +523,10 @@ class TagResolver:
             self.gens[e["id"]] = g
             self.inst.append((e["id"], g))
             self.cur[e["id"]] = g
+            return e
+        if e["e"] == "B":
+            self.count += e["n"]
+            self.inst += [(-1, 0)] * e["n"]
             return e
         if e["e"] != "X":
             return e
